@@ -17,9 +17,6 @@ package filecachepb
 //@ import time time
 //@ func (*time.Location).String
 //@   modifies nothing
-//@ func agdtime.LoadLocation
-//@   modifies nothing
-//@   ensures err == nil ==> l != nil
 
 // sameDay(p, i): the stored interval p is the internal interval i.
 //@ pred sameDay(p *DayInterval, i *filter.DayInterval) = (i == nil ==> p == nil) && (i != nil ==> p != nil && p.Start == i.Start && p.End == i.End)
@@ -149,10 +146,6 @@ package filecachepb
 // settings come from the backend.
 //@ import agdpasswd github.com/AdguardTeam/AdGuardDNS/internal/agdpasswd
 //@ import agd github.com/AdguardTeam/AdGuardDNS/internal/agd
-//@ func agdpasswd.NewPasswordHashBcrypt
-//@   modifies nothing
-//@   ensures p != nil && fresh(p)
-//@ pred okAuth(p agdpasswd.Authenticator) = istype(p, agdpasswd.AllowAuthenticator) || (isptr(p, agdpasswd.PasswordHashBcrypt) && asptr(p, agdpasswd.PasswordHashBcrypt) != nil)
 //@ func dohPasswordToInternal
 //@   property C14 C03
 //@   requires isptr(pbp, AuthenticationSettings_PasswordHashBcrypt) ==> asptr(pbp, AuthenticationSettings_PasswordHashBcrypt) != nil
@@ -190,26 +183,12 @@ package filecachepb
 //@ import durationpb google.golang.org/protobuf/types/known/durationpb
 //@ import agdprotobuf github.com/AdguardTeam/AdGuardDNS/internal/agdprotobuf
 //@ import dnsmsg github.com/AdguardTeam/AdGuardDNS/internal/dnsmsg
-//@ ghost tsTime map[*timestamppb.Timestamp]time.Time
-//@ ghost durVal map[*durationpb.Duration]int
-//@ func timestamppb.New
-//@   modifies tsTime
-//@   ensures result != nil && fresh(result) && tsTime[result] == t && (forall o *timestamppb.Timestamp :: o != result ==> tsTime[o] == old(tsTime[o]))
-//@ func (*timestamppb.Timestamp).AsTime
-//@   modifies nothing
-//@   ensures result == tsTime[x]
-//@ func durationpb.New
-//@   modifies durVal
-//@   ensures result != nil && fresh(result) && durVal[result] == d && (forall o *durationpb.Duration :: o != result ==> durVal[o] == old(durVal[o]))
-//@ func (*durationpb.Duration).AsDuration
-//@   modifies nothing
-//@   ensures result == durVal[x]
+// (timestamppb / durationpb: contracts/ext/pb.spec)
 //@ func unsafelyConvertStrSlice
 //@   modifies nothing
 //@   ensures len(res) == len(s) && (forall i int :: 0 <= i && i < len(s) ==> res[i] == s[i]) && arr(res) == arr(s) && off(res) == off(s)
 // binOf(ip): the bytes MarshalBinary writes for an address; ipsOf: what
 // ByteSlicesToIPs reads (an error for a malformed entry).
-//@ fun ipOfBin(b string) netip.Addr
 //@ ghost lastIPs []netip.Addr
 //@ func ipToBytes
 //@   modifies ipBytes
@@ -221,10 +200,6 @@ package filecachepb
 //@ func agdprotobuf.ByteSlicesToIPs
 //@   modifies lastIPs
 //@   ensures err == nil ==> lastIPs == ips && len(ips) == len(data)
-//@ func (*netip.Addr).UnmarshalBinary
-//@   results err
-//@   modifies deref(ip)
-//@   ensures err == nil ==> deref(ip) == ipOfBin(strof(b))
 
 //@ func (*Device).toInternal
 //@   property C14
